@@ -31,6 +31,7 @@ import (
 	"reflect"
 	"strconv"
 	"strings"
+	"sync"
 
 	"github.com/tink-crypto/tink-go/v2/internal/protoserialization"
 	"github.com/tink-crypto/tink-go/v2/key"
@@ -52,31 +53,60 @@ func atoiU32(s string) uint32 {
 	return uint32(v)
 }
 
+// The run functions return "<observation>|chk=<ok or what failed>".  The
+// observation (what the model must reproduce) is returned by run; the verdict
+// of the direct checks is kept for check, which the driver calls right after
+// run on the same line.
+var (
+	verdictMu sync.Mutex
+	verdicts  = map[string]string{}
+)
+
 func run(in string) string {
 	f := strings.Split(in, "|")
+	var r string
 	switch f[0] {
 	case "K":
-		return runKey(f)
+		r = runKey(f)
 	case "P":
-		return runParams(f)
+		r = runParams(f)
 	case "W":
-		return runWire(f)
+		r = runWire(f)
 	case "H":
-		return runHandle(f)
+		r = runHandle(f)
 	case "GENFAIL":
-		return "genfail|chk=" + f[1]
+		r = "genfail|chk=" + f[1]
+	default:
+		panic("unknown case kind " + f[0])
 	}
-	panic("unknown case kind " + f[0])
+	obs, verdict := r, "ok"
+	if i := strings.LastIndex(r, "|chk="); i >= 0 {
+		obs, verdict = r[:i], r[i+5:]
+	}
+	verdictMu.Lock()
+	verdicts[in] = verdict
+	verdictMu.Unlock()
+	return obs
 }
 
 func check(in, obs string) string {
 	if strings.HasPrefix(obs, "PANIC") {
 		return obs
 	}
-	if i := strings.LastIndex(obs, "|chk="); i >= 0 {
-		if c := obs[i+5:]; c != "ok" {
-			return c
-		}
+	verdictMu.Lock()
+	v, ok := verdicts[in]
+	delete(verdicts, in)
+	verdictMu.Unlock()
+	if !ok {
+		// not run in this process: run the direct checks now
+		run(in)
+		verdictMu.Lock()
+		v = verdicts[in]
+		delete(verdicts, in)
+		verdictMu.Unlock()
+	}
+	if v != "ok" {
+		return v
 	}
 	return ""
 }
@@ -173,27 +203,35 @@ func roundTripKey(k key.Key) (s1, ps *protoserialization.KeySerialization, fail 
 			return s1, nil, "output prefix changed by the round trip"
 		}
 	}
-	// parameters
+	// parameters (a failure here does not stop the public-key part below)
 	p := k.Parameters()
-	if !p.Equal(k2.Parameters()) || !k2.Parameters().Equal(p) {
-		return s1, nil, "parameters of the reparsed key differ"
-	}
-	if p.HasIDRequirement() != has1 {
-		return s1, nil, "Parameters.HasIDRequirement disagrees with the key"
-	}
-	if t1, err := protoserialization.SerializeParameters(p); err == nil {
-		p2, err := protoserialization.ParseParameters(t1)
-		if err != nil {
-			return s1, nil, "ParseParameters failed on SerializeParameters output: " + err.Error()
+	paramFail := func() string {
+		if !p.Equal(k2.Parameters()) || !k2.Parameters().Equal(p) {
+			return "parameters of the reparsed key differ"
 		}
-		if !p2.Equal(p) || !p.Equal(p2) {
-			return s1, nil, "parse(serialize(parameters)) not Equal for " + describeParams(p)
+		if p.HasIDRequirement() != has1 {
+			return "Parameters.HasIDRequirement disagrees with the key"
 		}
-		t2, err := protoserialization.SerializeParameters(p2)
-		if err != nil || !proto.Equal(t1, t2) || !bytes.Equal(detMarshal(t1), detMarshal(t2)) {
-			return s1, nil, "second parameters serialization differs"
+		if t1, err := protoserialization.SerializeParameters(p); err == nil {
+			p2, err := protoserialization.ParseParameters(t1)
+			if err != nil {
+				return "ParseParameters failed on SerializeParameters output: " + err.Error()
+			}
+			if !p2.Equal(p) || !p.Equal(p2) {
+				return "parse(serialize(parameters)) not Equal for " + describeParams(p)
+			}
+			t2, err := protoserialization.SerializeParameters(p2)
+			if err != nil || !proto.Equal(t1, t2) || !bytes.Equal(detMarshal(t1), detMarshal(t2)) {
+				return "second parameters serialization differs"
+			}
 		}
-	}
+		return ""
+	}()
+	defer func() {
+		if fail == "" {
+			fail = paramFail
+		}
+	}()
 	// public key
 	if pk, ok := k.(privateKey); ok {
 		pub, err := pk.PublicKey()
